@@ -231,7 +231,7 @@ impl AccessControlBuiltin {
 // Verification hooks: re-exports of the (module-private) document types and a way to install
 // already parsed documents under a fresh PermissionsHandle, so that the in-crate drivers can
 // evaluate the real decision functions on generated documents.
-#[cfg(rustdds_verif)]
+#[cfg(all(rustdds_verif, any(not(rustdds_verif_only), rustdds_verif_c18)))]
 pub(crate) mod verif {
   pub(crate) use super::{
     domain_governance_document::{
@@ -245,7 +245,7 @@ pub(crate) mod verif {
   pub(crate) use crate::security::certificate::{Certificate, DistinguishedName};
 }
 
-#[cfg(rustdds_verif)]
+#[cfg(all(rustdds_verif, any(not(rustdds_verif_only), rustdds_verif_c18)))]
 impl AccessControlBuiltin {
   pub(crate) fn verif_install(
     &mut self,
